@@ -447,5 +447,79 @@ theorem run_inv (s : LtSys) (ops : List LtOp) (hi : LInv s) : LInv (s.run ops) :
       · rename_i hok; exact ih _ (step_inv s op hi hok)
       · exact ih _ hi
 
+/-! ### a record whose tag is gone stays that way -/
+
+/-- the tag object of record `d` has been destroyed (`alive == false`; the record may or may not have
+been deleted since) -/
+def Dead (s : LtSys) (d : Nat) : Prop := ∃ det, s.details[d]? = some det ∧ det.alive = false
+
+theorem touch_dead (s : LtSys) (d0 d : Nat) (f : LDetail → LDetail)
+    (hf : ∀ det, det.alive = false → (f det).alive = false) (h : s.Dead d) : (s.touch d0 f).Dead d := by
+  obtain ⟨det, hd, ha⟩ := h
+  unfold touch
+  cases h0 : s.details[d0]? with
+  | none => exact ⟨det, hd, ha⟩
+  | some det0 =>
+      simp only
+      split
+      · exact ⟨det, hd, ha⟩
+      · by_cases e : d0 = d
+        · subst e
+          rw [hd] at h0; cases h0
+          exact ⟨f det, by simp [lt_of_getElem? _ _ _ hd], hf det ha⟩
+        · exact ⟨det, by simp only; rw [List.getElem?_set_ne e]; exact hd, ha⟩
+
+theorem wRelease_dead (s : LtSys) (v : Option Nat) (d : Nat) (h : s.Dead d) : (s.wRelease v).Dead d := by
+  cases v with
+  | none => exact h
+  | some d0 =>
+      apply touch_dead _ _ _ _ _ h
+      intro det ha; simp only; split <;> exact ha
+
+theorem wInc_dead (s : LtSys) (v : Option Nat) (d : Nat) (h : s.Dead d) : (s.wInc v).Dead d := by
+  cases v with
+  | none => exact h
+  | some d0 => exact touch_dead _ _ _ _ (fun det ha => ha) h
+
+theorem tRelease_dead (s : LtSys) (v : Option Nat) (d : Nat) (h : s.Dead d) : (s.tRelease v).Dead d := by
+  cases v with
+  | none => exact h
+  | some d0 =>
+      apply touch_dead _ _ _ _ _ h
+      intro det ha; split
+      · exact ha
+      · rfl
+
+theorem tCreate_dead (s : LtSys) (i d : Nat) (h : s.Dead d) : (s.tCreate i).Dead d := by
+  obtain ⟨det, hd, ha⟩ := h
+  exact ⟨det, by simp only [tCreate]; rw [List.getElem?_append_left (lt_of_getElem? _ _ _ hd)]; exact hd, ha⟩
+
+theorem step_dead (s : LtSys) (op : LtOp) (d : Nat) (h : s.Dead d) : (s.step op).Dead d := by
+  have hW : ∀ (t : LtSys) (w : Nat), t.Dead d → (t.wDrop w).Dead d := fun t w ht => wRelease_dead t _ d ht
+  have hA : ∀ (t : LtSys) (w : Nat) (v : Option Nat), t.Dead d → (t.wAttach w v).Dead d := fun t w v ht => wInc_dead t v d ht
+  have hT : ∀ (t : LtSys) (i : Nat), t.Dead d → (t.tDrop i).Dead d := fun t i ht => tRelease_dead t _ d ht
+  cases op with
+  | tnew i => exact tCreate_dead _ i d (hT s i h)
+  | tdel i => exact hT s i h
+  | tcopy i j => exact tCreate_dead _ i d (hT s i h)
+  | tassign i j => exact h
+  | wnew w => exact hW s w h
+  | wtag w i => exact hA _ w _ (hW s w h)
+  | wcopyCtor w v => exact hA _ w _ (hW s w h)
+  | wmoveCtor w v => exact hW s w h
+  | wcopyAssign w v => simp only [step]; split; exact h; exact hA _ w _ (hW s w h)
+  | wmoveAssign w v => simp only [step]; split; exact h; exact hW s w h
+  | wswap a b => exact h
+  | wreset w => exact hW s w h
+
+theorem run_dead (s : LtSys) (ops : List LtOp) (d : Nat) (h : s.Dead d) : (s.run ops).Dead d := by
+  induction ops generalizing s with
+  | nil => exact h
+  | cons op ops ih =>
+      simp only [run]
+      split
+      · exact ih _ (step_dead s op d h)
+      · exact ih _ h
+
 end LtSys
 end Tbox.C08
